@@ -195,7 +195,8 @@ func (s *State) checkFrameWrite(base, ref, where string) {
 		if fr == nil || fr.Unrestricted || fr.Whole[base] {
 			return
 		}
-		alts := []string{app(">=", ref, fr.AllocPre)}
+		// a write through nil cannot happen (it panics; separate obligation), so the nil reference is always "in frame"
+		alts := []string{app(">=", ref, fr.AllocPre), eq(ref, "0")}
 		for _, r := range fr.Refs[base] {
 			alts = append(alts, eq(ref, r))
 		}
